@@ -33,7 +33,7 @@ func init() {
 		Title: "No sequence of valid transactions can make block processing panic",
 		Cases: func(t string) int { return tierN(t, 128, 2400) },
 		Run:   runC05,
-		Rule: "case = one history: a scaffold reaching files with provers, gauges, plans, forms, names, bids, listings, file-tree entries, feeds and notifications, then 4-7 bursts of 8-16 transactions each; a transaction is either a semantically valid template message with 1-2 fields replaced from boundary / hostile pools (numeric: 0, +-1, 2^31, 2^62, MaxInt64, MinInt64, products that overflow; strings: separators, unicode, empty, very long, look-alike addresses; bytes; coins) or a type-directed random message of a type drawn round-robin from all registered custom message types; only transactions that pass ValidateBasic are delivered (that count is `valid_txs`); after each burst honest provers prove and the chain runs through >= 2 reward heights with time jumps past gauge ends; " +
+		Rule: "case = one history: a scaffold reaching files with provers, gauges, plans, forms, names, bids, listings, file-tree entries, feeds and notifications, then 4-7 bursts of 8-16 transactions each; a transaction is either a semantically valid template message with 1-2 fields replaced from boundary / hostile pools (numeric: 0, +-1, 2^31, 2^62, MaxInt64, MinInt64, products that overflow; strings: separators, unicode, empty, very long, look-alike addresses; bytes; coins) or a type-directed random message of a type drawn round-robin from all registered custom message types; only transactions that pass ValidateBasic are delivered (that count is `valid_txs`); creators occasionally spell their address in upper case; 45% of the histories also pass 1-3 per burst governance parameter-change proposals with boundary values for the custom modules' parameters (real MsgSubmitProposal + MsgVote); after each burst honest provers prove and the chain runs through >= 2 reward heights with time jumps past gauge ends; " +
 			"oracle: recover() around BeginBlock, EndBlock and Commit of the assembled app (a panic inside DeliverTx is recovered by the SDK and is not a violation); " +
 			"non-trivial signature = (message type, mutated field, value class) of a mutated transaction that executed with code 0 and was followed by a reward block with a non-empty prover set",
 		Assumptions: []string{
@@ -42,6 +42,31 @@ func init() {
 		},
 		MinNonTriv: 60,
 	})
+}
+
+// governance-settable parameters of the custom modules: {subspace, key, candidate JSON values...}
+var c05GovParams = [][]string{
+	{"storage", "CheckWindow", `"0"`, `"1"`, `"2"`, `"3"`, `"-1"`, `"9223372036854775807"`},
+	{"storage", "ProofWindow", `"0"`, `"1"`, `"2"`, `"-5"`, `"9223372036854775807"`},
+	{"storage", "ChunkSize", `"0"`, `"1"`, `"-1"`, `"9223372036854775807"`},
+	{"storage", "MissesToBurn", `"0"`, `"1"`, `"-1"`},
+	{"storage", "MaxContractAgeInBlocks", `"0"`, `"-1"`},
+	{"storage", "PricePerTbPerMonth", `"0"`, `"-1"`, `"9223372036854775807"`},
+	{"storage", "AttestFormSize", `"0"`, `"-1"`, `"1"`, `"9223372036854775807"`},
+	{"storage", "AttestMinToPass", `"0"`, `"-1"`, `"9223372036854775807"`},
+	{"storage", "CollateralPrice", `"0"`, `"1"`, `"2"`, `"-1"`, `"9223372036854775807"`},
+	{"storage", "Referrals", `"0"`, `"100"`, `"101"`, `"-1"`, `"9223372036854775807"`},
+	{"storage", "POLRatio", `"0"`, `"100"`, `"101"`, `"-1"`, `"9223372036854775807"`},
+	{"storage", "PriceFeed", `""`, `" "`, `"nofeed"`},
+	{"storage", "DepositAccount", `""`, `"x"`},
+	{"jklmint", "TokensPerBlock", `"0"`, `"-1"`, `"9223372036854775807"`},
+	{"jklmint", "MintIncrease", `"0"`, `"-1"`, `"9223372036854775807"`, `"5256000000"`},
+	{"jklmint", "StakerRatio", `"0"`, `"100"`, `"101"`, `"-1"`, `"9223372036854775807"`},
+	{"jklmint", "DevGrants", `"0"`, `"100"`, `"-1"`, `"9223372036854775807"`},
+	{"jklmint", "ProviderRatio", `"0"`, `"100"`, `"-1"`, `"9223372036854775807"`},
+	{"jklmint", "MintDenom", `""`, `"ujkl"`, `"!!"`, `"a"`, `"UJKL"`, `"ibc/ABC"`},
+	{"jklmint", "StorageStipend", `""`, `"nonsense"`},
+	{"oracle", "Deposit", `""`, `"nonsense"`},
 }
 
 var c05Digits = regexp.MustCompile(`[0-9]+`)
@@ -391,7 +416,12 @@ func runC05(rc *RunCtx) {
 	sp.AttestFormSize = int64(1 + rc.Intn(2))
 	sp.AttestMinToPass = 1
 	fund := sdk.NewCoins(sdk.NewInt64Coin("ujkl", 10_000_000_000_000_000), sdk.NewInt64Coin("uatom", 1_000_000_000_000))
-	c, err := chain.New(chain.Config{Seed: rc.Seed, NAcc: 6, Storage: sp, Fund: fund})
+	gov := rc.Chance(0.45)
+	cfg := chain.Config{Seed: rc.Seed, NAcc: 6, Storage: sp, Fund: fund}
+	if gov {
+		cfg.GovVotingSeconds = 10
+	}
+	c, err := chain.New(cfg)
 	if err != nil {
 		rc.Abort("init: " + err.Error())
 		return
@@ -480,6 +510,28 @@ func runC05(rc *RunCtx) {
 	// ---- bursts
 	nBursts := 4 + rc.Intn(4)
 	for b := 0; b < nBursts; b++ {
+		for g := 0; gov && g < 1+rc.Intn(3); g++ {
+			// a governance parameter-change proposal with a boundary value (real MsgSubmitProposal + MsgVote; the
+			// proposal transactions pass stateless validation, the module's parameter validators decide at execution)
+			pk := c05GovParams[rc.Intn(len(c05GovParams))]
+			val := pk[2+rc.Intn(len(pk)-2)]
+			err := c.ParamChange(pk[0], pk[1], val)
+			rc.Count("gov_proposals", 1)
+			rc.Logf("h=%d governance %s/%s := %s -> %v", c.Height, pk[0], pk[1], val, err)
+			if pe, ok := err.(*chain.PanicError); ok {
+				rc.Fail("C05/"+strings.ToLower(strings.SplitN(pe.Where, "(", 2)[0])+"-panic/"+c05Norm(pe.Value), "after governance change %s/%s := %s: %s: %s\n%s", pk[0], pk[1], val, pe.Where, pe.Value, firstAppFrames(pe.Stack))
+				return
+			}
+			if err == nil {
+				rc.Count("gov_proposals_applied", 1)
+				w.pending = append(w.pending, "gov/"+pk[0]+"/"+pk[1]+"/"+val)
+				// the reward interval may have changed
+				C = c.App.StorageKeeper.GetParams(c.Ctx()).CheckWindow
+			}
+			if c.Dead {
+				return
+			}
+		}
 		nTx := 8 + rc.Intn(9)
 		tmpls := w.templates()
 		if b == 0 || rc.Chance(0.4) {
@@ -529,6 +581,15 @@ func runC05(rc *RunCtx) {
 			}
 			if m == nil {
 				continue
+			}
+			if rc.Chance(0.1) {
+				// the creator spells its own address in upper case (valid bech32, same signer)
+				if f := reflect.ValueOf(m).Elem().FieldByName("Creator"); f.IsValid() && f.Kind() == reflect.String {
+					if _, err := sdk.AccAddressFromBech32(f.String()); err == nil {
+						f.SetString(strings.ToUpper(f.String()))
+						desc += "+UPPER-creator"
+					}
+				}
 			}
 			url := sdk.MsgTypeURL(m)
 			short := url[strings.Index(url, ".")+1:]
